@@ -258,7 +258,10 @@ def run(ctx):
                     "clang/ASan/UBSan"]
     ctx.assumptions += ["descriptor identities are unique per open file description (kernel never hands the same connection out twice)",
                         "SCM_RIGHTS delivery order and SO_ERROR semantics of the kernel (inputs of the model)"]
-    proofs_ok = ctx.require_lean(["UvModel.Props.C07", "UvModel.Props.C07Connect", "UvModel.Props.C07Send"])
+    ctx.trusted += ["tools/gen_lean.py (clang AST -> Lean for the loop-free kernels check_before_write) and UvModel/CSem.lean"]
+    # Tie A: uv__check_before_write regenerated from /repo, GenEq/C07 re-proves it = Accept.checkBeforeWrite
+    gen_ok = ctx.gen_lean(need=["C07"])
+    proofs_ok = ctx.require_lean(["UvModel.GenEq.C07", "UvModel.Props.C07", "UvModel.Props.C07Connect", "UvModel.Props.C07Send"]) and gen_ok
     uexe = ctx.harness("c07_unit", ["harness/c07_unit.c"], link_lib=True)
     sexe = ctx.harness("c07_sim", ["harness/c07_sim.c"], link_lib=True)
     if ctx.replay:
